@@ -5,8 +5,9 @@
 (*    (optionally two consecutive frames share a timestamp, optionally no    *)
 (*    partition-tail markers), the network delivers them with bounded        *)
 (*    reordering, loss and duplication, the receiver calls Push, Pop (one    *)
-(*    or until nil) and finally Flush and Pop until nil.  The first          *)
-(*    sequence number is M - startBack, so streams cross the wrap.           *)
+(*    or until nil), possibly Flush in mid-stream, and finally Flush and     *)
+(*    Pop until nil.  The first sequence number is M - startBack, so         *)
+(*    streams cross the wrap.                                                *)
 (*                                                                           *)
 (* 2. Algo = "abstract": the normative machine.  Pop may return ANY sample   *)
 (*    the legality guards of SampleBuilderOps allow.  TLC checks that the    *)
